@@ -125,7 +125,7 @@ def finish(mod, prop, tier, seed, results, inconclusive, wall):
         print(f"  {v['detail'][:400]}")
     _write_summary(prop, unlisted)
     for msg in inconclusive:
-        print(f"INCONCLUSIVE: property={prop} {msg[:600]}")
+        print(f"INCONCLUSIVE: property={prop} " + " ".join(msg[-700:].split()))
 
     n_unlisted_total = len(unlisted)
     ev = {
